@@ -101,12 +101,17 @@ impl Property for C11 {
             iso_strategy(0.3),
             prop_oneof![2 => limits_wide(), 1 => limits_any()],
             0u8..3,
-            joints_uniform(),
+            (joints_uniform(), prop_oneof![2 => Just(None), 1 => (-1i8..=1, prop_oneof![1 => small_delta(), 2 => (1e-8..3e-5f64, any::<bool>()).prop_map(|(d, n)| if n { -d } else { d })]).prop_map(Some)]),
             prev_2pi(),
             0u8..4,
             -3.0..3.0f64,
         )
-            .prop_map(|(mut scene, tool_tf, limits, ctor, j, prev, entry, j6)| {
+            .prop_map(|(mut scene, tool_tf, limits, ctor, (j, wrist), prev, entry, j6)| {
+                // near / exactly wrist-singular generating postures: the continuation entry point then returns a ninth, recovered answer
+                let j = match wrist {
+                    Some((k, delta)) => wrist_joints(&scene.robot, &j, k, delta),
+                    None => j,
+                };
                 // make most attached boxes penetrate: they then hit exactly the generating branch
                 for (k, e) in scene.env.iter_mut().enumerate() {
                     if k == 0 {
@@ -206,6 +211,7 @@ impl Property for C11 {
             None => return Err(viol!("the tool mesh is present", "none")),
         }
         ensure!(pr.environment.len() == c.scene.env.len(), "the environment list is complete", "{} vs {}", pr.environment.len(), c.scene.env.len());
+        ctx.class(&format!("underlying-answers:{}", u.len().min(9)));
         ctx.class_n("underlying-answers-kept", expect.len() as u64);
         ctx.class_n("underlying-answers-dropped", dropped as u64);
         if !expect.is_empty() && dropped > 0 {
